@@ -260,3 +260,24 @@ class LocalFlow:
 
     def derives_from_local(self, l, src):
         return src in self.closure(l)
+
+
+def ret_locals(f):
+    """Locals that hold the function's return value: _0 and every local that is moved into one of them
+    whole (after helper inlining the callee's return place is moved into the caller's)."""
+    c = f._cache.get("ret_locals")
+    if c is not None:
+        return c
+    S = {0}
+    changed = True
+    while changed:
+        changed = False
+        for b in f.blocks:
+            for s in b["s"]:
+                if s["k"] == "assign" and not s["p"].get("pr") and s["p"]["l"] in S and s["r"]["k"] == "use":
+                    pl = s["r"]["o"].get("m") or s["r"]["o"].get("c")
+                    if pl is not None and not pl.get("pr") and pl["l"] not in S:
+                        S.add(pl["l"])
+                        changed = True
+    f._cache["ret_locals"] = S
+    return S
